@@ -7,7 +7,7 @@ BOUNDS = {
     "quick": "one operation (Labware.add/remove, worklist aspirate/dispense with k<=2 wells, transfer with k<=2 triples and <=3 split steps incl. "
              "same-labware and same-well transfers, auto_split on and off, distribute incl. into the source trough) from an arbitrary valid state whose history holds 1 or 3 "
              "earlier entries of arbitrary symbolic volumes; volumes >= 0 symbolic, so the classes 'all zero' / 'some zero' are decided by the solver; "
-             "label present or absent; both devices; plate 2x2 / trough 3x2; followed by one further Labware.add to test snapshot semantics",
+             "label present or absent; both devices; plate 2x2 / trough 3x2; followed by one further Labware.add to test snapshot semantics; a transfer between two distinct plates that carry the same name",
     "thorough": "k<=2 with 4 candidate wells, <=4 split steps, partition modes x3, plates 3x2/8x2",
 }
 OUTSIDE = "k beyond the bound; user code that mutates arrays returned by `history` (the property speaks about later operations)"
